@@ -323,6 +323,17 @@ pub fn run(ctx: &Ctx, mode: Mode) -> Shard {
         }
         i += 1;
     }
+    // ---- 5b. directed: deep trees (five or six levels), cascading merges
+    let mut i = 0usize;
+    while let Some(h) = shape::deep_tree_history(ps, i) {
+        if (i as u64 + 1) % ctx.nshards == ctx.shard && (mode != Mode::C07 || i < 2) && (ctx.thorough() || i < 6) {
+            let path = scratch.fresh("d");
+            let out = exec::run_history(&h, &cfg, &path);
+            let _ = std::fs::remove_file(&path);
+            absorb(&mut shard, ctx, mode, &h, &out, &mut total, "deep-tree");
+        }
+        i += 1;
+    }
     // ---- 6. C07 only: iterations that are under way while the transaction mutates entries ahead of them
     if mode == Mode::C07 {
         crate::live::run(ctx, &mut shard);
